@@ -5,7 +5,7 @@
    the 4300-digit limit are outside the model (the harness keeps to ASCII). *)
 From Coq Require Import ZArith NArith List Bool.
 Import ListNotations.
-Open Scope N_scope.
+Local Open Scope N_scope.
 
 Definition str := list N.
 
